@@ -175,6 +175,9 @@ class _Pipe:
         self.dst = dst            # SimTransport receiving
         self.rng = rng
         self.buf = bytearray()    # in flight (accepted from the writer, not yet delivered)
+        self.arrivals = collections.deque()   # [arrival time, nbytes]: when written bytes reach the reader's host
+        self.arrived = 0          # bytes of `buf` that have reached the reader's host
+        self.last_arrival = 0.0
         self.eof = False          # writer closed; deliver connection_lost after the buffer drains
         self.scheduled = False
         self.delivered = 0
@@ -232,7 +235,7 @@ class SimTransport(asyncio.transports._FlowControlMixin, asyncio.Transport):
         p.buf += data
         p.written += len(data)
         self.net.on_write(self, bytes(data))
-        self.net._schedule(p)
+        self.net._arrive(p, len(data))
         self._maybe_pause_protocol()
 
     def writelines(self, list_of_data):
@@ -258,6 +261,8 @@ class SimTransport(asyncio.transports._FlowControlMixin, asyncio.Transport):
         self._closing = True
         self.net.on_close(self, 'abort')
         self.out.buf.clear()
+        self.out.arrivals.clear()
+        self.out.arrived = 0
         self.out.eof = True
         self.net._schedule(self.out)
         self.net._lose(self, None)
@@ -269,6 +274,8 @@ class SimTransport(asyncio.transports._FlowControlMixin, asyncio.Transport):
         self._closing = True
         self.net.on_close(self, 'fatal:' + type(exc).__name__)
         self.out.buf.clear()
+        self.out.arrivals.clear()
+        self.out.arrived = 0
         self.out.eof = True
         self.net._schedule(self.out)
         self.net._lose(self, exc)
@@ -429,22 +436,40 @@ class SimStreamNet:
         return ct, st
 
     # -- delivery ------------------------------------------------------------------------------------
-    def _schedule(self, pipe):
-        if pipe.scheduled:
-            return
-        if not pipe.buf and not pipe.eof:
-            return
-        pipe.scheduled = True
+    def _arrive(self, pipe, nbytes):
+        """Bytes just written reach the reader's host after one link latency (ordered: never before
+        earlier bytes).  Fragmentation is decided at delivery; fragments of data that has already
+        arrived follow each other within `inter_chunk`, they do not each pay a link latency."""
         lo, hi = self.cfg['latency']
         lat = lo + (hi - lo) * pipe.rng.random()
         stall = self.cfg.get('stall_prob', 0.0)
         if stall and pipe.rng.random() < stall:
             lat += self.cfg.get('stall_s', 1.0) * pipe.rng.random()
             self.run.faults['stream_stall'] += 1
-        self.loop.call_later(lat, self._pump, pipe)
+        at = max(self.loop.time() + lat, pipe.last_arrival)
+        pipe.last_arrival = at
+        pipe.arrivals.append([at, nbytes])
+        self._schedule(pipe)
+
+    def _schedule(self, pipe):
+        if pipe.scheduled:
+            return
+        now = self.loop.time()
+        while pipe.arrivals and pipe.arrivals[0][0] <= now + 1e-12:
+            pipe.arrived += pipe.arrivals.popleft()[1]
+        if pipe.arrived > 0 or (pipe.eof and not pipe.buf):
+            lo, hi = self.cfg.get('inter_chunk', (0.0, 0.0004))
+            pipe.scheduled = True
+            self.loop.call_later(lo + (hi - lo) * pipe.rng.random(), self._pump, pipe)
+        elif pipe.arrivals:
+            pipe.scheduled = True
+            self.loop.call_at(pipe.arrivals[0][0], self._pump, pipe)
+        elif pipe.eof:
+            pipe.scheduled = True
+            self.loop.call_later(self.cfg['latency'][0], self._pump, pipe)
 
     def _chunk_size(self, pipe):
-        n = len(pipe.buf)
+        n = min(len(pipe.buf), pipe.arrived)
         chunker = self.cfg.get('chunker')
         if chunker is not None:
             k = chunker(pipe.rng, pipe, n)
@@ -474,16 +499,23 @@ class SimStreamNet:
     def _pump(self, pipe):
         pipe.scheduled = False
         dst = pipe.dst
-        if dst._closed:
+        now = self.loop.time()
+        while pipe.arrivals and pipe.arrivals[0][0] <= now + 1e-12:
+            pipe.arrived += pipe.arrivals.popleft()[1]
+        if dst._closed or dst._closing:
+            # a closing transport no longer reads (asyncio removes the reader on close())
             pipe.buf.clear()
+            pipe.arrivals.clear()
+            pipe.arrived = 0
             self._after_drain(pipe)
             return
         if dst._paused_reading and pipe.buf:
             return   # resume_reading reschedules
-        if pipe.buf:
+        if pipe.buf and pipe.arrived > 0:
             k = self._chunk_size(pipe)
             chunk = bytes(pipe.buf[:k])
             del pipe.buf[:k]
+            pipe.arrived -= k
             pipe.delivered += k
             for o in self.observers:
                 f = getattr(o, 'on_deliver', None)
@@ -513,6 +545,8 @@ class SimStreamNet:
                     self._lose(dst, None)
                     # what the reader had in flight towards the closed writer is discarded
                     dst.out.buf.clear()
+                    dst.out.arrivals.clear()
+                    dst.out.arrived = 0
                     dst.out.eof = True
 
     def _maybe_finish_close(self, transport):
@@ -544,5 +578,7 @@ class SimStreamNet:
         for t in (ct, st):
             if t is not None and not t._closed:
                 t.out.buf.clear()
+                t.out.arrivals.clear()
+                t.out.arrived = 0
                 t._closing = True
                 self._lose(t, exc if t is transport else ConnectionResetError(104, 'Connection reset by peer'))
